@@ -38,7 +38,7 @@ the replaced part.
 import CtyModel.Props.C11
 import CtyModel.Lemmas.CoversWeaken
 import CtyModel.Lemmas.C12Funcs
-import CtyModel.Lemmas.d12bHasIndex
+import CtyModel.Lemmas.d12bIndex
 namespace CtyModel
 namespace C12
 open Fn Std
@@ -957,6 +957,47 @@ theorem sound_hasindex (o w ok wk r : Value) (hk : o.whollyKnown = true) (hkk : 
     (by simp [coversAll, hc, hck]) ⟨hty, htk, trivial⟩ hrwf hrefl
     (fun _ _ => D12b.hasindex_implSound o w ok wk hk hkk hfo hfk hfw hfwk hmw hmwk hc hck) hr
 
+/-- **`index`** (the function): `Impl` asks the nested `HasIndexFunc.Call` first and goes on to `Value.Index` on a
+definite True.  A collection known at the top keeps its shape under weakening of its members, so the nested
+call answers the same; `Value.Index` is C01 `sound_index`.  An unknown key (or `cty.DynamicVal` for it) is the
+framework's short-circuit: to the element type of a list or map, to the placeholder for a tuple. -/
+theorem sound_index (o w ok wk r : Value) (hk : o.whollyKnown = true) (hkk : ok.whollyKnown = true)
+    (hkd : ok.ty.isDyn = false) (hleaf : ok.v.isLeaf = true)
+    (hfo : o.wfc = true) (hfw : w.wfc = true) (hfk : ok.wfc = true)
+    (hmo : o.containsMarked = false) (hmok : ok.containsMarked = false)
+    (hmw : w.containsMarked = false) (hmwk : wk.containsMarked = false)
+    (hty : w.ty = o.ty ∨ w.ty.isDyn = true) (htk : wk.ty = ok.ty ∨ wk.ty.isDyn = true)
+    (hc : CoversX w o = true) (hck : CoversX wk ok = true) (hckk : CoversX ok ok = true)
+    (hwkd : wk.ty.isDyn = true → wk.isKnown = false)
+    (hTw : ∀ t, Stdlib.indexType [w, wk] = .ok t → Ty.wf t = true)
+    (hrwf : Ty.wf r.ty = true) (hrefl : Covers r r = true)
+    (hr : (callUnrefined Stdlib.indexSpec Stdlib.indexType Stdlib.indexImpl [o, ok]).1 = .ok r) :
+    ∃ r', (callUnrefined Stdlib.indexSpec Stdlib.indexType Stdlib.indexImpl [w, wk]).1 = .ok r' ∧
+      Covers r' r = true := by
+  have hkey : wk.isKnown = true → wk = ok := by
+    intro hkw
+    have hty' : wk.ty = ok.ty := by
+      rcases htk with h | h
+      · exact h
+      · rw [hwkd h] at hkw; cases hkw
+    exact D12b.leaf_eq hmwk hmok hty' hck hkw hleaf
+  refine impl_soundness_lifts_to_call _ _ _ [o, ok] [w, wk] r ?_ hTw
+    (by intro a ha; simp at ha; rcases ha with rfl | rfl <;> exact C12L.whollyKnown_isKnown (by assumption))
+    (by intro a ha; simp at ha; rcases ha with rfl | rfl <;> assumption)
+    (by intro a ha; simp at ha; rcases ha with rfl | rfl <;> assumption)
+    (by simp [coversAll, hc, hck]) ⟨hty, htk, trivial⟩ hrwf hrefl ?_ hr
+  · intro hp
+    have h1 := D12b.first_arg_kept (spec := Stdlib.indexSpec) (o1 := o) rfl rfl hp hty
+    by_cases hkw : wk.isKnown = true
+    · exact D12b.indexType_mono h1 (Or.inl (hkey hkw))
+    · exact D12b.indexType_mono h1 (Or.inr ⟨by simpa using hkw, htk⟩)
+  · intro hp hri
+    have h1 := D12b.first_arg_kept (spec := Stdlib.indexSpec) (o1 := o) rfl rfl hp hty
+    obtain ⟨hkw, hkwk⟩ := D12b.two_args_known (spec := Stdlib.indexSpec) rfl rfl rfl hri
+    have := hkey hkwk
+    subst this
+    exact D12b.index_implSound o w wk h1 hk hkk hkd hfo hfw hfk hmo hmw hmwk hkw hc hckk
+
 /-! ### the hypotheses are satisfiable -/
 
 example : TypeMonoW (C11.staticType (.list .string)) := static_typeMonoW _
@@ -1242,6 +1283,16 @@ example : EnvConvertSound { convert := fun v t => if t = .dyn then .ok v else .u
     subst h
     exact ⟨w, rfl, hty, coversX_covers hc⟩
   · simp [ht] at h
+
+
+/-- `index(["a","b"], 0)` with that member unknown, and `index({k = 1, l = 2}, "l")` with the other element unknown -/
+example : ∃ r', (callUnrefined Stdlib.indexSpec Stdlib.indexType Stdlib.indexImpl [exLw, Value.intVal 0]).1 = .ok r' ∧
+    Covers r' ⟨.string, .s "a"⟩ = true :=
+  sound_index exL exLw (Value.intVal 0) (Value.intVal 0) ⟨.string, .s "a"⟩ (by decide) (by decide) (by decide) (by decide)
+    (by decide) (by decide) (by decide) (by decide) (by decide) (by decide) (by decide) (Or.inl rfl) (Or.inl rfl)
+    (by decide) (by decide) (by decide) (by intro h; cases h)
+    (by intro t h; have e : Stdlib.indexType [exLw, Value.intVal 0] = .ok .string := rfl; rw [e] at h; cases h; rfl)
+    (by decide) (by decide) (by rfl)
 
 end C12
 end CtyModel
